@@ -15,7 +15,7 @@ models of the other properties — no `StoreFaithful` assumption is left:
   (6') the index may equally be the one `PackHeader::from_file` rebuilds from the pack bytes (C08 `parse_build`).
 * `archive_restore_blobs` (7): for EVERY schedule of the packer pipeline (`Model/Archive` part 2: early/late dedup filters,
   any pack boundaries, writer and indexer delays; C07 `uploaded_exactly_added`, C13 `every_written_pack_indexed`, typed
-  indexer c65a201) every blob handed to a packer reads back.  `store_faithful_derived` / `backup_restore_file` (8): the
+  indexer 17c26ec) every blob handed to a packer reads back.  `store_faithful_derived` / `backup_restore_file` (8): the
   former hypothesis as a theorem, one file end to end through the C06 chunker.
 * `archive_restore` (9): a whole source forest — names (any bytes), entry types, link targets (UTF-8 or not), metadata
   (mode/mtime/… as one record), file contents, directories of any depth/width incl. empty ones — through the real
@@ -623,7 +623,7 @@ open Rustic.Snapshot Rustic.Tree Rustic.Archive in
 forest does not look at `md.size`: a file leaf stays well-formed under ANY recorded size (0 = a stdin-style node — `backup -`,
 `--stdin-command`, block device saved as file —, smaller = grown after `stat`, larger = shrunk), so `archive_restore` restores such a
 leaf to the same node (the recorded size included) and to the bytes that were READ.  (Restoring over an EXISTING destination is not part
-of the model: there the empty-file shortcut of `RestorePlan::add_file` trusted `meta.size == 0` — defect 623025e, found by the
+of the model: there the empty-file shortcut of `RestorePlan::add_file` trusted `meta.size == 0` — defect 74f8f4f, found by the
 `S:` entries of `c01 e2e`.) -/
 theorem leaf_wf_any_recorded_size (n : Node) (d : RoundTrip.Bytes) (sz : Nat) (h : (STree.leaf n d).WF) :
     (STree.leaf (withSize n sz) d).WF := by
